@@ -37,7 +37,20 @@ mod h {
 
     // ---------------------------------------------------------------- C12: scalar round trips, Option, mismatches
     macro_rules! scalar {
-        ($t:ty, $tag:expr, $rt:ident, $opt:ident, $mis:ident) => {
+        ($t:ty, $tag:expr, $rt:ident, $opt:ident, $mis:ident, $optmis:ident) => {
+            /// Option<T> extraction: NULL of T's own variant is None; any OTHER variant (NULL or not) is an error
+            #[kani::proof]
+            #[kani::unwind(3)]
+            fn $optmis() {
+                let tag: u8 = kani::any();
+                kani::assume(tag < N_TAGS);
+                let v = any_scalar(tag);
+                let null = is_null(&v);
+                let r = <Option<$t> as ValueType>::try_from(v);
+                if tag != $tag { assert!(r.is_err()); }
+                else if null { assert!(matches!(r, Ok(None))); }
+                else { assert!(matches!(r, Ok(Some(_)))); }
+            }
             /// x -> Value -> x is the identity (floats compared by bit pattern: NaN payloads, -0.0)
             #[kani::proof]
             fn $rt() {
@@ -48,6 +61,7 @@ mod h {
             }
             /// None -> NULL of T's own variant -> None ; Some(x) -> Some(x), never None
             #[kani::proof]
+            #[kani::unwind(3)]
             fn $opt() {
                 let x: Option<$t> = any_opt();
                 let v: Value = x.into();
@@ -65,6 +79,7 @@ mod h {
             }
             /// extracting as T from any other variant, or from NULL, is an error - never a wrong value
             #[kani::proof]
+            #[kani::unwind(3)]
             fn $mis() {
                 let tag: u8 = kani::any();
                 kani::assume(tag < N_TAGS);
@@ -75,18 +90,18 @@ mod h {
             }
         };
     }
-    scalar!(bool, 0, full_rt_bool, full_opt_bool, full_mis_bool);
-    scalar!(i8, 1, full_rt_i8, full_opt_i8, full_mis_i8);
-    scalar!(i16, 2, full_rt_i16, full_opt_i16, full_mis_i16);
-    scalar!(i32, 3, full_rt_i32, full_opt_i32, full_mis_i32);
-    scalar!(i64, 4, full_rt_i64, full_opt_i64, full_mis_i64);
-    scalar!(u8, 5, full_rt_u8, full_opt_u8, full_mis_u8);
-    scalar!(u16, 6, full_rt_u16, full_opt_u16, full_mis_u16);
-    scalar!(u32, 7, full_rt_u32, full_opt_u32, full_mis_u32);
-    scalar!(u64, 8, full_rt_u64, full_opt_u64, full_mis_u64);
-    scalar!(f32, 9, full_rt_f32, full_opt_f32, full_mis_f32);
-    scalar!(f64, 10, full_rt_f64, full_opt_f64, full_mis_f64);
-    scalar!(char, 11, full_rt_char, full_opt_char, full_mis_char);
+    scalar!(bool, 0, full_rt_bool, full_opt_bool, full_mis_bool, full_optmis_bool);
+    scalar!(i8, 1, full_rt_i8, full_opt_i8, full_mis_i8, full_optmis_i8);
+    scalar!(i16, 2, full_rt_i16, full_opt_i16, full_mis_i16, full_optmis_i16);
+    scalar!(i32, 3, full_rt_i32, full_opt_i32, full_mis_i32, full_optmis_i32);
+    scalar!(i64, 4, full_rt_i64, full_opt_i64, full_mis_i64, full_optmis_i64);
+    scalar!(u8, 5, full_rt_u8, full_opt_u8, full_mis_u8, full_optmis_u8);
+    scalar!(u16, 6, full_rt_u16, full_opt_u16, full_mis_u16, full_optmis_u16);
+    scalar!(u32, 7, full_rt_u32, full_opt_u32, full_mis_u32, full_optmis_u32);
+    scalar!(u64, 8, full_rt_u64, full_opt_u64, full_mis_u64, full_optmis_u64);
+    scalar!(f32, 9, full_rt_f32, full_opt_f32, full_mis_f32, full_optmis_f32);
+    scalar!(f64, 10, full_rt_f64, full_opt_f64, full_mis_f64, full_optmis_f64);
+    scalar!(char, 11, full_rt_char, full_opt_char, full_mis_char, full_optmis_char);
 
     /// String / Vec<u8> extraction from every scalar variant and from their own NULL fails
     #[kani::proof]
@@ -152,6 +167,38 @@ mod h {
         let t12: (u8, u8, u8, u8, u8, u8, u8, u8, u8, u8, u8, i16) = (kani::any(), kani::any(), kani::any(), kani::any(), kani::any(), kani::any(), kani::any(), kani::any(), kani::any(), kani::any(), kani::any(), kani::any());
         let r12: (u8, u8, u8, u8, u8, u8, u8, u8, u8, u8, u8, i16) = FromValueTuple::from_value_tuple(t12);
         assert!(r12 == t12);
+    }
+    macro_rules! tuple_rt {
+        ($name:ident, $($t:ty),+) => {
+            /// into_value_tuple keeps arity and order; from_value_tuple(into_value_tuple(t)) == t (distinct types per position
+            /// where possible, so a permutation cannot go unnoticed)
+            #[kani::proof]
+            #[kani::unwind(14)]
+            fn $name() {
+                let t: ($($t),+) = ($(kani::any::<$t>()),+);
+                let r: ($($t),+) = FromValueTuple::from_value_tuple(t);
+                assert!(r == t);
+            }
+        };
+    }
+    tuple_rt!(full_tuple_5, u8, i8, u16, i16, u32);
+    tuple_rt!(full_tuple_6, u8, i8, u16, i16, u32, i32);
+    tuple_rt!(full_tuple_7, u8, i8, u16, i16, u32, i32, u64);
+    tuple_rt!(full_tuple_8, u8, i8, u16, i16, u32, i32, u64, i64);
+    tuple_rt!(full_tuple_9, u8, i8, u16, i16, u32, i32, u64, i64, bool);
+    tuple_rt!(full_tuple_10, u8, i8, u16, i16, u32, i32, u64, i64, bool, char);
+    tuple_rt!(full_tuple_11, u8, i8, u16, i16, u32, i32, u64, i64, bool, char, u8);
+    /// same-typed neighbours: order of the last positions of each arity (a swap of equal types is invisible to a type error)
+    #[kani::proof]
+    #[kani::unwind(14)]
+    fn full_tuple_order_same_types() {
+        let a: [u8; 12] = kani::any();
+        let r5: (u8, u8, u8, u8, u8) = FromValueTuple::from_value_tuple((a[0], a[1], a[2], a[3], a[4]));
+        assert!(r5 == (a[0], a[1], a[2], a[3], a[4]));
+        let r8: (u8, u8, u8, u8, u8, u8, u8, u8) = FromValueTuple::from_value_tuple((a[0], a[1], a[2], a[3], a[4], a[5], a[6], a[7]));
+        assert!(r8 == (a[0], a[1], a[2], a[3], a[4], a[5], a[6], a[7]));
+        let r11: (u8, u8, u8, u8, u8, u8, u8, u8, u8, u8, u8) = FromValueTuple::from_value_tuple((a[0], a[1], a[2], a[3], a[4], a[5], a[6], a[7], a[8], a[9], a[10]));
+        assert!(r11 == (a[0], a[1], a[2], a[3], a[4], a[5], a[6], a[7], a[8], a[9], a[10]));
     }
     #[kani::proof]
     #[kani::unwind(6)]
